@@ -57,7 +57,10 @@ CHECKS = {
  'C18': dict(engine='E4-enum', category='exploration', design='DESIGN.md 6, 9/C18, harness/C18/NOTES.md',
    technique='small-scope exhaustive enumeration: digit-shape grid of IPv4 addresses, every zero-run shape of IPv6, every port boundary, every output capacity; all strings over an 11-symbol alphabet up to length 6-7 through the parsers; all prefix lengths (thorough: all 2^32 IPv4 addresses) against integer arithmetic, libc inet_pton and an RFC 5952 formatter',
    text='Formatting must give the conventional text (dotted quad, RFC 5952, brackets with a port), parse back to the same address and port, never write outside any capacity 0..need+10 and report a sufficient size; the parsers must accept the documented spellings with the right result and never return an unrelated address; len<->mask conversions are inverse, truncation and membership agree with integer arithmetic.',
-   note='Lenient acceptance the documentation is silent on is counted, not judged; non-contiguous masks, scope ids, UNIX paths with special characters are outside; see harness/C18/NOTES.md.'),
+   note='Lenient acceptance the documentation is silent on is counted, not judged; non-contiguous masks, scope ids, UNIX paths with special characters are outside; see harness/C18/NOTES.md.'), 'C02': dict(engine='E4-enum', category='exploration', design='DESIGN.md 6, 7, 9/C02, harness/C02/NOTES.md',
+   technique='small-scope exhaustive enumeration over whole groups of 12 synthetic curves (all point pairs, all scalars) and operand/scalar alphabets on the 32 built-in curves, repeated for every member of an explicit build-configuration matrix, against a textbook affine-law oracle (native integers / Python ints)',
+   text='On 8-bit-field synthetic curves every ordered pair (P,Q) incl. infinity for add/sub, every P for doubling, every scalar 0..max(n,2^m-1) for base-point and unknown-point multiplication, every (k1,k2) on the smallest groups for twin multiplication; operand and scalar alphabets on 16-bit-field and the 32 built-in curves; quick 13 builds covering every macro value once, thorough 324 builds (coordinates x fixed-point / unknown-point / twin algorithm x window width x digit width). Every result must equal the reference point and lie on the curve; non-zero rc on valid operands is a violation.',
+   note='Scalars and points outside the alphabets on real-size curves are not covered; window wider than the digit, Barrett reduction and BN_CC_MULL_DIV off are outside; affine + interleaved twin does not link (reported as skipped); see harness/C02/NOTES.md.'),
 }
 
 REASON_WIP = 'check not finished yet in this session (harness under construction; see DESIGN.md section 13)'
